@@ -7075,6 +7075,14 @@ class _RoundShape(Shape):
 
         Converts the parameters from an ellipse or a circle to a string for a
         Path object d-attribute"""
+        if transformed and not self.transform.is_identity():
+            m = self.transform
+            if abs(m.a * m.c + m.b * m.d) > 1e-12 * (
+                abs(m.a * m.d) + abs(m.b * m.c) + 1e-300
+            ):
+                # The images of the two axes are not perpendicular (shear): implicit_rx, implicit_ry and
+                # the rotation do not describe the image; map the untransformed decomposition instead.
+                return [s * m for s in self.segments(transformed=False)]
         original = self.apply
         self.apply = transformed
         path = Path()
